@@ -26,6 +26,7 @@ type Plan struct {
 	Policy    *PolicyPlan     `json:"policy,omitempty"`
 	Registry  *RegistryPlan   `json:"registry,omitempty"`
 	Pair      *PairPlan       `json:"pair,omitempty"`
+	MSE       *MSEPlan        `json:"mse,omitempty"`
 	Generic   json.RawMessage `json:"generic,omitempty"`
 }
 
@@ -301,6 +302,38 @@ func init() {
 		tp.Peers = append(tp.Peers, hp)
 		tp.Bound = 2 * time.Hour
 		tp.Liveness = true
+		p.Transfer = tp
+	}, Run: func(env *Env, p *Plan) { RunTransfer(env, p.Transfer) }})
+
+	// C12 policy clause: forced encryption against peers that only speak plaintext
+	Register(&Scenario{Name: "encpolicy", Gen: func(r *simrt.Rand, tier string, p *Plan) {
+		tp := genTransferBase(r, tier)
+		np := numPiecesOf(tp.Layout)
+		tp.K.DisableOutgoingEncryption = false
+		switch r.Intn(3) {
+		case 0:
+			tp.K.ForceOutgoingEncryption = true
+		case 1:
+			tp.K.ForceIncomingEncryption = true
+		default:
+			tp.K.ForceOutgoingEncryption, tp.K.ForceIncomingEncryption = true, true
+		}
+		tp.K.PeerHandshakeTimeout = r.Dur(2*time.Second, 8*time.Second)
+		tp.PreSeeded = r.Chance(0.3)
+		tp.FaultsStop = r.Dur(20*time.Second, 60*time.Second)
+		tp.Bound = 10 * time.Second
+		tp.Liveness = false
+		tp.Webseeds = nil
+		for i := 0; i < r.Range(1, 4); i++ {
+			ps := honestPeer(r, tp.Layout, fmt.Sprintf("h%d", i), np)
+			ps.Mode = simrt.Pick(r, []string{"dial", "listen"})
+			ps.Via = "manual"
+			ps.Redial = r.Dur(time.Second, 8*time.Second)
+			if tp.PreSeeded {
+				ps.B.Leech, ps.B.LeechInterested = true, true
+			}
+			tp.Peers = append(tp.Peers, ps)
+		}
 		p.Transfer = tp
 	}, Run: func(env *Env, p *Plan) { RunTransfer(env, p.Transfer) }})
 
